@@ -103,7 +103,9 @@ func normFloat(f float64) *gen.Tree {
 }
 
 func genNumber(t *rapid.T) *gen.Tree {
-	switch rapid.IntRange(0, 7).Draw(t, "numkind") {
+	switch rapid.IntRange(0, 8).Draw(t, "numkind") {
+	case 8:
+		return genBinaryEdge(t)
 	case 0:
 		return gen.Int(rapid.Int64().Draw(t, "i"))
 	case 1:
@@ -119,6 +121,36 @@ func genNumber(t *rapid.T) *gen.Tree {
 	default:
 		return normFloat(rapid.Float64().Draw(t, "f"))
 	}
+}
+
+// binary exponents around the limits of the integer types and of the float64
+// mantissa first (2^63, 2^64, 2^53), then everything from 2^50 to 2^67
+var edgeExps = []int{63, 64, 53, 62, 65, 52, 54, 31, 32, 50, 51, 55, 56, 57, 58, 59, 60, 61, 66, 67}
+
+// genBinaryEdge: +-m * 2^(k-52) with a 53-bit mantissa m that is the lowest
+// (a power of two), the next one, the highest (the float64 just below the next
+// power of two) or random: the float64 values at and next to the powers of two
+// around 2^53, 2^63, 2^64. All of them are whole numbers; those within
+// [-2^63, 2^64) become the integer they are (normFloat), and the writer may
+// spell them as floats.
+func genBinaryEdge(t *rapid.T) *gen.Tree {
+	k := rapid.SampledFrom(edgeExps).Draw(t, "bexp")
+	var m uint64
+	switch rapid.IntRange(0, 4).Draw(t, "mant") {
+	case 0, 1:
+		m = 1 << 52
+	case 2:
+		m = 1<<52 + 1
+	case 3:
+		m = 1<<53 - 1
+	default:
+		m = 1<<52 | rapid.Uint64Range(0, 1<<52-1).Draw(t, "m")
+	}
+	f := math.Ldexp(float64(m), k-52)
+	if rapid.IntRange(0, 2).Draw(t, "neg") == 2 {
+		f = -f
+	}
+	return normFloat(f)
 }
 
 func genObj(t *rapid.T, depth, width int) *gen.Tree {
@@ -169,11 +201,149 @@ func genValue(t *rapid.T, depth, width int) *gen.Tree {
 	}
 }
 
+// ---------------------------------------------------------------------------
+// big documents: hundreds of containers side by side, hundreds of levels
+
+// genItem is one member of a wide container; mix decides what the members are
+// like (0: empty containers only, 1: mostly empty ones, 2: records whose fields
+// may be empty containers, 3: anything small).
+func genItem(t *rapid.T, mix, i int) *gen.Tree {
+	var k int
+	switch mix {
+	case 0:
+		k = rapid.IntRange(0, 1).Draw(t, "item")
+	case 1:
+		k = rapid.SampledFrom([]int{0, 1, 0, 1, 0, 1, 2, 3, 4, 5, 6, 7}).Draw(t, "item")
+	case 2:
+		k = rapid.IntRange(6, 7).Draw(t, "item")
+	default:
+		k = rapid.IntRange(0, 9).Draw(t, "item")
+	}
+	switch k {
+	case 0:
+		return gen.List()
+	case 1:
+		return gen.Obj()
+	case 2:
+		return gen.Uint(uint64(i))
+	case 3:
+		return gen.Str("s")
+	case 4:
+		return gen.List(gen.Uint(1))
+	case 5:
+		return gen.Obj().Put("k", gen.Str("v"))
+	case 6, 7:
+		// a record; which of its fields are empty is one more draw
+		e := rapid.IntRange(0, 7).Draw(t, "empties")
+		rec := gen.Obj().Put("id", gen.Uint(uint64(i)))
+		tags, attrs := gen.List(), gen.Obj()
+		if e&1 == 0 {
+			tags = gen.List(gen.Str("a"))
+		}
+		if e&2 == 0 {
+			attrs = gen.Obj().Put("k", gen.Str("v"))
+		}
+		rec.Put("tags", tags)
+		if e&4 == 0 || k == 7 {
+			rec.Put("attrs", attrs)
+		}
+		return rec
+	case 8:
+		return gen.Nil()
+	default:
+		return gen.List(gen.List(), gen.Obj().Put("", gen.Obj()))
+	}
+}
+
+// genWide: a list or an object with 64..~400 members (the library has no limit
+// on the number of members or of containers in a document, so none is assumed),
+// below 0-3 levels of wrappers that have members before and after it.
+func genWide(t *rapid.T) *gen.Tree {
+	n := rapid.SampledFrom([]int{70, 64, 65, 100, 130, 200, 256, 257, 300, 400, 63, 80}).Draw(t, "n")
+	n += rapid.IntRange(0, 20).Draw(t, "nplus")
+	mix := rapid.IntRange(0, 3).Draw(t, "mix")
+	var v *gen.Tree
+	if rapid.IntRange(0, 2).Draw(t, "wideobj") == 0 {
+		v = gen.Obj()
+		for i := 0; i < n; i++ {
+			v.Keys = append(v.Keys, "k"+strconv.Itoa(i))
+			v.Vals = append(v.Vals, genItem(t, mix, i))
+		}
+	} else {
+		v = gen.List()
+		for i := 0; i < n; i++ {
+			v.Vals = append(v.Vals, genItem(t, mix, i))
+		}
+	}
+	for lv := rapid.IntRange(0, 3).Draw(t, "wrap"); lv > 0; lv-- {
+		v = genWrap(t, v, true)
+	}
+	return v
+}
+
+// genWrap puts one container around v; siblings: also members before/after v.
+func genWrap(t *rapid.T, v *gen.Tree, siblings bool) *gen.Tree {
+	hi := 2
+	if siblings {
+		hi = 7
+	}
+	switch rapid.IntRange(0, hi).Draw(t, "wrapkind") {
+	case 0:
+		return gen.List(v)
+	case 1:
+		return gen.Obj().Put("k", v)
+	case 2:
+		return gen.Obj().Put("", v)
+	case 3:
+		return gen.List(gen.Uint(0), v, gen.List(gen.Obj()))
+	case 4:
+		return gen.Obj().Put("a", gen.Uint(1)).Put("k", v).Put("z", gen.Obj().Put("l", gen.List(gen.List())))
+	case 5:
+		return gen.List(gen.List(), v, gen.Str("x"))
+	case 6:
+		return gen.List(v, gen.Obj().Put("k", gen.List(gen.Uint(1))))
+	default:
+		return gen.Obj().Put("e", gen.Obj()).Put("k", v).Put("f", gen.List())
+	}
+}
+
+// genDeep: 65..~500 levels of arrays and objects around a small value.
+func genDeep(t *rapid.T) *gen.Tree {
+	d := rapid.SampledFrom([]int{65, 66, 64, 70, 100, 128, 129, 80, 200, 257, 90, 300}).Draw(t, "levels")
+	d += rapid.IntRange(0, 30).Draw(t, "lplus")
+	v := genItem(t, 3, 0)
+	style := rapid.IntRange(0, 3).Draw(t, "deepstyle") // arrays only, objects only, alternating, free
+	for i := 0; i < d; i++ {
+		switch {
+		case style == 0:
+			v = gen.List(v)
+		case style == 1:
+			v = gen.Obj().Put("k", v)
+		case style == 2 && i%2 == 0:
+			v = gen.List(v)
+		case style == 2:
+			v = gen.Obj().Put("k", v)
+		default:
+			v = genWrap(t, v, i%16 == 0)
+		}
+	}
+	return v
+}
+
+// values of the "shape" draw (0..99) that select a big document; interior
+// values, because rapid favours the ends of a range
+const shapeWide, shapeDeep = 37, 61
+
 func genCase(t *rapid.T) Case {
 	depth, width := runlog.Pick(4, 6), runlog.Pick(4, 6)
 	var c Case
+	shape := rapid.IntRange(0, 99).Draw(t, "shape")
 	// mostly documents (object or array at the top), sometimes a bare scalar
 	switch top := rapid.IntRange(0, 9).Draw(t, "top"); {
+	case shape == shapeWide:
+		c.V = genWide(t)
+	case shape == shapeDeep:
+		c.V = genDeep(t)
 	case top == 0:
 		c.V = genValue(t, 0, width)
 	case top <= 5:
@@ -187,9 +357,23 @@ func genCase(t *rapid.T) Case {
 	// the layout is drawn by running the writer once with a drawing chooser, so
 	// that it has exactly one entry per choice point
 	dense := rapid.IntRange(0, 2).Draw(t, "density")
+	var pattern []int
+	if shape == shapeDeep {
+		// indentation makes the text of a deep document quadratic in its depth
+		c.Indent = rapid.SampledFrom([]string{" ", "\t", "", "\r"}).Draw(t, "deepindent")
+		c.Prefix = ""
+	}
+	if shape == shapeWide || shape == shapeDeep {
+		// a big document has thousands of choice points: its layout repeats a
+		// short drawn pattern instead of drawing every point
+		pattern = rapid.SliceOfN(rapid.IntRange(0, 11), 1, 12).Draw(t, "pattern")
+	}
 	w := &jw{ch: func(n int) int {
 		v := 0
-		if dense > 0 || rapid.IntRange(0, 3).Draw(t, "on") == 0 {
+		switch {
+		case pattern != nil:
+			v = pattern[len(c.Layout)%len(pattern)] % n
+		case dense > 0 || rapid.IntRange(0, 3).Draw(t, "on") == 0:
 			v = rapid.IntRange(0, n-1).Draw(t, "c")
 		}
 		c.Layout = append(c.Layout, v)
@@ -233,7 +417,9 @@ func onlyWS(s string) string {
 	}, s)
 }
 
-func ownRender(c Case) string {
+func ownRender(c Case) string { return ownWriter(c).b.String() }
+
+func ownWriter(c Case) *jw {
 	pos := 0
 	w := &jw{ch: func(n int) int {
 		v := 0
@@ -247,7 +433,7 @@ func ownRender(c Case) string {
 		return v
 	}}
 	w.doc(c.V)
-	return w.b.String()
+	return w
 }
 
 // ---------------------------------------------------------------------------
@@ -255,8 +441,18 @@ func ownRender(c Case) string {
 
 func treeClasses(v *gen.Tree, r *runlog.R) {
 	seen := map[string]bool{}
+	empties, conts, maxMembers := 0, 0, 0
 	v.Walk(nil, func(_ []string, n *gen.Tree) {
 		strs := []string{}
+		if n.IsCont() {
+			conts++
+			if len(n.Vals) == 0 {
+				empties++
+			}
+			if len(n.Vals) > maxMembers {
+				maxMembers = len(n.Vals)
+			}
+		}
 		switch n.K {
 		case "str":
 			strs = append(strs, n.S)
@@ -308,8 +504,15 @@ func treeClasses(v *gen.Tree, r *runlog.R) {
 			}
 		}
 	})
-	for k := range seen {
-		r.Class(k)
+	for _, b := range []int{64, 128, 256} {
+		seen[fmt.Sprintf("size:>=%d empty containers in one document", b)] = empties >= b
+		seen[fmt.Sprintf("size:>=%d containers in one document", b)] = conts >= b
+		seen[fmt.Sprintf("size:>=%d members in one container", b)] = maxMembers >= b
+	}
+	for k, on := range seen {
+		if on {
+			r.Class(k)
+		}
 	}
 }
 
@@ -327,7 +530,8 @@ func runCase(c Case, r *runlog.R) error {
 	if err != nil {
 		return fmt.Errorf("harness: encoding/json cannot indent the case: %v", err)
 	}
-	own := ownRender(c)
+	ow := ownWriter(c)
+	own := ow.b.String()
 	if !json.Valid([]byte(own)) {
 		return fmt.Errorf("harness: the own writer produced text that is not JSON: %q", own)
 	}
@@ -351,14 +555,34 @@ func runCase(c Case, r *runlog.R) error {
 		}
 	}
 	r.NonTrivialIf(nt)
-	r.Class(fmt.Sprintf("depth=%d", c.V.Depth()))
+	switch d := c.V.Depth(); {
+	case d >= 256:
+		r.Class("depth>=256")
+	case d >= 128:
+		r.Class("depth 128..255")
+	case d >= 65:
+		r.Class("depth 65..127")
+	case d >= 10:
+		r.Class("depth 10..64")
+	default:
+		r.Class(fmt.Sprintf("depth=%d", d))
+	}
+	if ow.bigFloatSyntax {
+		r.Class("own:whole number beyond 2^53 with fraction/exponent")
+	}
+	if ow.bigAtLimit {
+		r.Class("own:2^53, +-2^63 or 2^64 with fraction/exponent")
+	}
+	if ow.longDigits {
+		r.Class("own:float with its exact (long) decimal expansion")
+	}
 	treeClasses(c.V, r)
 	return nil
 }
 
 var subRound = runlog.Register(&runlog.Sub[Case]{
 	Name: "json-roundtrip",
-	Rule: "random JSON value (depth<=4/6, width<=4/6; strings over quotes, backslashes, slashes, control characters, non-ASCII and astral runes, keyword and number look-alikes; integers over [-2^63,2^64) incl. the edges; finite floats; no duplicate keys) rendered by encoding/json compact, by encoding/json indented (random indent/prefix) and by the harness's own RFC 8259 writer whose whitespace per token gap, escape style per character (literal, short escape, \\uXXXX in either hex case, \\/, surrogate pair) and number spelling (fraction, exponent forms, padding zeros, -0) are a list of choices stored in the case; every text must be accepted by parse.Value and equal the value canonically ([] = {} = nil, numbers by value). Non-trivial: some text has whitespace after a string/array/object value, or an escape sequence, or the value nests >= 2 levels. Distinct: hash of the whole case.",
+	Rule: "random JSON value (depth<=4/6, width<=4/6; strings over quotes, backslashes, slashes, control characters, non-ASCII and astral runes, keyword and number look-alikes; integers over [-2^63,2^64) incl. the edges; finite floats; the float64 values at and next to the powers of two 2^50..2^67 (lowest, second and highest mantissa, both signs); no duplicate keys). about 1 case in 100 is a WIDE document (a list or object with 63..420 members - empty lists/objects only, mostly empty ones, records whose list/object fields may be empty, or a mix - below 0-3 wrapper levels with members before and after it) and 1 in 100 a DEEP one (64..330 levels of arrays/objects, uniform, alternating or free with side members); no size limit is assumed because the library states none. Each value is rendered by encoding/json compact, by encoding/json indented (random indent/prefix) and by the harness's own RFC 8259 writer whose whitespace per token gap (so `[ ]`, `{\\n}`), escape style per character (literal, short escape, \\uXXXX in either hex case, \\/, surrogate pair) and number spelling (fraction, exponent forms, shifted decimal point, padding zeros, -0; digits = shortest decimal or the exact decimal expansion of the float64) are a list of choices stored in the case (big documents repeat a drawn pattern of <=12 choices). A whole number beyond 2^53 that no float64 holds keeps its integer spelling; one that is a float64 (2^63, -2^63, 2^64-2048, 2^53+2, ...; 2^64 and beyond as float) is also written with a fraction or an exponent, with its exact digits (9223372036854775808.0, 92233720368547758.08e2) or with the shortest digits (9.223372036854776e18), which denote it exactly resp. as the nearest float64. Every text must be accepted by parse.Value and equal the value canonically ([] = {} = nil, numbers by mathematical value, big.Int). Non-trivial: some text has whitespace after a string/array/object value, or an escape sequence, or the value nests >= 2 levels. Distinct: hash of the whole case.",
 	Gen:  genCase,
 	Run:  runCase,
 })
